@@ -6,6 +6,9 @@ from ..prop import Check
 
 COUNT_KEYS = ["Test_ue_registation", "Test_ue_pdu_establishment", "Test_ue_service", "Test_ue_pdu_release", "Test_ue_deregistration"]
 BANNER = ">> All tests finished"
+# the replies the property lists as consumed by the emulator
+CONSUMED = {"NGSetupResponse", "DL:AuthenticationRequest", "DL:SecurityModeCommand", "InitialContextSetupRequest", "PDUSessionResourceSetupRequest",
+            "DL:ServiceAccept", "PDUSessionResourceReleaseCommand", "UEContextReleaseCommand"}
 
 
 class C19(Check):
@@ -23,22 +26,25 @@ class C19(Check):
     def regen(self, harness):
         return gen.regen(harness, {"DriverSkel.v", "MainWiring.v"})
 
-    def model_predictions(self, counts, nrep):
+    def model_predictions(self, counts, nrep, faults):
         cfg = "[" + ";".join('("%s",%d%%Z)' % (k, v) for k, v in zip(COUNT_KEYS, counts)) + "]"
+        fl = ";".join("(%d,%s,%d)" % (f[0], "true" if f[1] == "close" else "false", f[2]) for f in faults)
         txt = ("From Coq Require Import List String Bool Arith ZArith.\nRequire Import DriverTypes Driver DriverConv DriverSkel MainWiring.\n"
                "Import ListNotations. Open Scope string_scope.\n"
                "Definition conv := conversation_of driver_skeletons wiring_mode2 %s.\n"
                "Definition nrep := [%s]%%nat.\n"
                "Definition code (o:outcome) : nat := match o with Completed => 0 | Exit1 _ => 1 end.\n"
-               "Definition pred := Eval vm_compute in (count_w conv, map (fun j => code (run (FClose j) conv pst0 0)) (seq 0 (count_w conv)),\n"
-               "  map (fun j => code (run (FGarbage j (queued_before conv nrep j)) conv pst0 0)) (seq 0 (count_w conv))).\nPrint pred.\n"
-               % (cfg, ";".join(str(x) for x in nrep)))
+               "Definition one (f:nat * bool * nat) : nat := let '(j, cl, i) := f in let q := queued_before conv nrep j + i in\n"
+               "  code (run (if cl then FClose j q else FGarbage j q) conv pst0 0).\n"
+               "Definition rd (f:nat * bool * nat) : nat := let '(j, cl, i) := f in if is_read conv j (queued_before conv nrep j + i) then 1 else 0.\n"
+               "Definition pred := Eval vm_compute in (count_w conv, map one [%s], map rd [%s]).\nPrint pred.\n"
+               % (cfg, ";".join(str(x) for x in nrep), fl, fl))
         rc, out = C.coq_eval(txt)
         flat = " ".join(out.split())
         m = re.search(r"pred = \((\d+), \[([^\]]*)\], \[([^\]]*)\]\)", flat)
         if rc != 0 or not m:
             raise RuntimeError("cannot evaluate the driver model: " + out[-1500:])
-        f = lambda s: [int(x) for x in s.replace("%nat", "").split(";") if x.strip()]
+        f = lambda t: [int(x) for x in t.replace("%nat", "").split(";") if x.strip()]
         return int(m.group(1)), f(m.group(2)), f(m.group(3))
 
     def extra(self, harness, build_ok):
@@ -62,12 +68,21 @@ class C19(Check):
                             "why": "the fault-free test-mode run against the reference AMF did not complete"})
             return
         nrep = base["nrep"]
-        n_model, pclose, pgarb = self.model_predictions(counts, nrep)
+        kinds = base["kinds"]
+        # faults at the granularity of downlink messages: close after i of the answers to uplink j were sent;
+        # the i-th answer replaced by undecodable bytes (fixed octets / a truncation of the genuine answer)
+        faults = []
+        for j in range(n_up):
+            for i in range(max(nrep[j], 1)):
+                faults.append((j, "close", i))
+            for i in range(nrep[j]):
+                faults.append((j, "garbage", i, "ff"))
+                faults.append((j, "garbage", i, "trunc"))
+        n_model, preds, reads = self.model_predictions(counts, nrep, faults)
         if n_model != n_up:
             self.violation({"theorem_or_stream": "correspondence: driver skeleton vs process", "input": {"counts": counts},
                             "observed": {"uplink_messages": n_up}, "expected": {"count_w": n_model},
                             "why": "the regenerated skeleton predicts a different number of uplink messages than the process sends"}, "no-failing-input-found")
-        faults = [(j, "close") for j in range(n_up)] + [(j, "garbage") for j in range(n_up) if nrep[j] >= 1]
 
         def one(f):
             t0 = time.time()
@@ -76,24 +91,34 @@ class C19(Check):
         with cf.ThreadPoolExecutor(max_workers=16) as ex:
             results = list(ex.map(one, faults))
         rows = []
-        for (j, kind), r, dt in results:
+        total_down = sum(nrep)
+        for (f, r, dt), pred, isread in zip(results, preds, reads):
+            j, kind, i = f[0], f[1], f[2]
             banner = BANNER in r["stdout"]
             observed = 0 if (r["rc"] == 0 and banner) else 1
-            pred = (pclose if kind == "close" else pgarb)[j] if j < n_model else None
-            rows.append({"j": j, "fault": kind, "rc": r["rc"], "banner": banner, "t_after_fault_s": round(r["t_after_fault"] or -1, 2), "model": pred})
+            what = kinds[j][i] if i < len(kinds[j]) else "-"
+            rows.append({"j": j, "fault": kind, "reply": i, "variant": f[3] if len(f) > 3 else None, "downlink": what, "rc": r["rc"], "banner": banner,
+                         "t_after_fault_s": round(r["t_after_fault"] or -1, 2), "model": pred, "read_by_emulator": isread})
             with self._lock:
                 self.cov["evaluations"] += 1
-                self._distinct.add("c19-%s-%d-%s" % (counts, j, kind))
-            # the property itself, on the implementation alone: a close anywhere but after the very last uplink
-            # message, and garbage in answer to a request whose reply is consumed with a checked decode
-            consumed = (kind == "close" and j < n_up - 1) or (kind == "garbage" and pred == 1)
-            if r["rc"] == "HANG" or (consumed and (r["rc"] == 0 or banner)) or (r["t_after_fault"] or 0) > 30:
-                self.violation({"theorem_or_stream": "process fault enumeration", "input": {"counts": counts, "uplink_index": j, "fault": kind},
+                self._distinct.add("c19-%s-%s" % (counts, f))
+            # the property itself, judged WITHOUT the model: a close that cuts off something the emulator still needs
+            # (every position but the one after its very last reads/writes), and garbage in place of a reply the property lists
+            downlinks_before = sum(nrep[:j]) + i
+            if kind == "close":
+                must_stop = not (j == n_up - 1 and i >= nrep[j])      # closing after everything was exchanged is no fault
+                must_stop = must_stop and not (j == n_up - 1 and downlinks_before >= total_down)
+            else:
+                # ... that the emulator actually reads (ReleasePDU never reads, so after a release one downlink message
+                # stays unread for good: the recorded C02 finding); only the positions of the Reads are taken from the skeleton
+                must_stop = what in CONSUMED and isread == 1
+            if r["rc"] == "HANG" or (must_stop and (r["rc"] == 0 or banner)) or (r["t_after_fault"] or 0) > 30:
+                self.violation({"theorem_or_stream": "process fault enumeration", "input": {"counts": counts, "uplink_index": j, "fault": kind, "reply_index": i, "variant": f[3] if len(f) > 3 else None, "replaced_downlink": what, "garbage": r.get("garbage")},
                                 "observed": {"rc": r["rc"], "banner": banner, "t_after_fault_s": r["t_after_fault"], "stdout_tail": r["stdout"][-800:]},
                                 "expected": "non-zero exit status within bounded time, no completion banner",
                                 "why": "emulator did not fail-stop", "how_to_replay": "./check C19 --tier %s" % self.tier})
-            elif pred is not None and observed != pred:
-                self.violation({"theorem_or_stream": "correspondence: Model/Driver.v vs process", "input": {"counts": counts, "uplink_index": j, "fault": kind},
+            elif observed != pred:
+                self.violation({"theorem_or_stream": "correspondence: Model/Driver.v vs process", "input": {"counts": counts, "uplink_index": j, "fault": kind, "reply_index": i, "replaced_downlink": what},
                                 "observed": {"rc": r["rc"], "banner": banner}, "expected": {"model_outcome": pred},
                                 "why": "model and process disagree on the outcome of this fault (property not violated on this input)"}, "no-failing-input-found")
         info["faults"] = rows
